@@ -9,7 +9,8 @@
 // once per run.  What they cannot say: anything quantified over interleavings (that every concurrent Stop returns, that
 // worker goroutines exit, absence of deadlock in general) -- see DESIGN.md section 8.
 //
-// Ghost state: sync.Mutex.held, sync.WaitGroup.n (counter); for calls through the DataSource interface the abstract
+// Ghost state: sync.Mutex.held, sync.WaitGroup.n (counter) -- an opt-in model (opt lockmodel) used only by the functions
+// below; everywhere else lock and wait-group calls keep their default treatment (no effect on modelled memory); for calls through the DataSource interface the abstract
 // state of a source is kept in ghost maps indexed by srcid(source): lcstate (0 Inactive, 1 Starting, 2 Active,
 // 3 Stopping) and lcwg (wait-group counter).  The interface contracts below mirror the verified contracts of the
 // AnySource methods that implement them.
@@ -20,48 +21,58 @@ package dastard
 //@ ghost field sync.WaitGroup.n mathint
 
 //@ extern func (*sync.Mutex).Lock
+//@   opt optin lockmodel
 //@   requires notheld: !m.held
 //@   ensures m.held
 //@   modifies m.held
 //@ extern func (*sync.Mutex).Unlock
+//@   opt optin lockmodel
 //@   requires held: m.held
 //@   ensures !m.held
 //@   modifies m.held
 //@ extern func (*sync.WaitGroup).Add
+//@   opt optin lockmodel
 //@   ensures wg.n == old(wg.n) + delta
 //@   modifies wg.n
 //@ extern func (*sync.WaitGroup).Done
+//@   opt optin lockmodel
 //@   requires pending: wg.n > 0
 //@   ensures wg.n == old(wg.n) - 1
 //@   modifies wg.n
 // Wait returns when the counter is zero (the decrements come from other goroutines: rely condition).
 //@ extern func (*sync.WaitGroup).Wait
+//@   opt optin lockmodel
 //@   ensures wg.n == 0
 //@   modifies wg.n
 
 // ---- the implementing methods of AnySource (verified) ----
 //@ func (*AnySource).GetState
 //@   props C10
+//@   opt lockmodel
 //@   requires !ds.sourceStateLock.held
 //@   ensures result == ds.sourceState && !ds.sourceStateLock.held
 //@   modifies ds.sourceStateLock.held
 //@ func (*AnySource).SetStateStarting
 //@   props C10
+//@   opt lockmodel
 //@   requires !ds.sourceStateLock.held
 //@   ensures (old(ds.sourceState) == 0 ==> result == nil && ds.sourceState == 1) && (old(ds.sourceState) != 0 ==> result != nil && ds.sourceState == old(ds.sourceState)) && !ds.sourceStateLock.held
 //@   modifies ds.sourceState, ds.sourceStateLock.held
 //@ func (*AnySource).SetStateInactive
 //@   props C10
+//@   opt lockmodel
 //@   requires !ds.sourceStateLock.held
 //@   ensures result == nil && ds.sourceState == 0 && !ds.sourceStateLock.held
 //@   modifies ds.sourceState, ds.sourceStateLock.held
 //@ func (*AnySource).RunDoneActivate
 //@   props C10
+//@   opt lockmodel
 //@   requires !ds.sourceStateLock.held
 //@   ensures ds.sourceState == 2 && ds.runDone.n == old(ds.runDone.n) + 1 && !ds.sourceStateLock.held
 //@   modifies ds.sourceState, ds.sourceStateLock.held, ds.runDone.n
 //@ func (*AnySource).RunDoneDeactivate
 //@   props C10
+//@   opt lockmodel
 //@   requires !ds.sourceStateLock.held && ds.runDone.n > 0
 //@   ensures ds.sourceState == 0 && ds.runDone.n == old(ds.runDone.n) - 1 && !ds.sourceStateLock.held
 //@   modifies ds.sourceState, ds.sourceStateLock.held, ds.runDone.n
@@ -81,6 +92,7 @@ package dastard
 // one is left alone, an active one ends Inactive with writing stopped.  (Stop on a Starting source panics by design.)
 //@ func (*AnySource).Stop
 //@   props C10
+//@   opt lockmodel
 //@   nosafety
 //@   requires !ds.sourceStateLock.held && ds.sourceState != 1 && 0 <= ds.sourceState && ds.sourceState <= 3
 //@   requires writing: !IOFaults() && InvW(ds) && InvS(ds.writingState) && ChanTablesOK(ds)
